@@ -71,6 +71,9 @@ def check(run, prog, tier):
                       "eigenvector matrix is indexed [site, exciton]", minimum=2)
     rule_I(run, prog, "C12-I", "for uncoupled molecules the widths are then permuted among the molecules and the response is no "
                                "longer the sum of the molecules' responses")
+    run.rule("C12-K", "the widths and dephasing rates of a pathway fall back to the calculator's own exactly when they are not "
+                      "given: each selection tests the entry it uses", minimum=4)
+    rule_K(run, prog)
     rule_I2(run, prog, "C12-I", "for uncoupled molecules the ESA lines get the widths of other molecules and no longer cancel the "
                                 "cross peaks: the response is not the sum of the molecules' responses")
 
@@ -115,6 +118,35 @@ def rule_I(run, prog, rid, what):
                                sample={"statement": norm(st)[:80]})
     if n_st < 2:
         raise AnalysisError("diagonalize: only %d width accumulations over sites recognised (2 confirmed)" % n_st)
+
+
+def rule_K(run, prog):
+    """'... for all line widths': a pathway carries the width and the dephasing rate of its two coherence intervals, a
+    negative entry meaning 'not given - use the calculator's own'.  Each selection has the shape
+    `if P.A[i] < 0.0: x = self.x  else: x = P.A[i]`: the entry that is tested is the entry that is used.  A selection that
+    tests the width and uses the dephasing rate hands a negative rate (-1, 'not given') to the Lorentzian line shape
+    whenever a width was given without a rate, and ignores a given rate when no width was given."""
+    rid = "C12-K"
+    f = prog.func("quantarhei.spectroscopy.mocktwodcalculator.MockTwoDResponseCalculator._calculate_pathway")
+    prog.consulted.add(f.relpath)
+    n = 0
+    for st in walk_no_nested(f.node):
+        if not (isinstance(st, ast.If) and isinstance(st.test, ast.Compare) and len(st.body) == 1 and len(st.orelse) == 1
+                and isinstance(st.body[0], ast.Assign) and isinstance(st.orelse[0], ast.Assign)
+                and norm(st.body[0].targets[0]) == norm(st.orelse[0].targets[0])):
+            continue
+        tested = st.test.left
+        used = st.orelse[0].value
+        if not (isinstance(tested, ast.Subscript) and isinstance(used, ast.Subscript)):
+            continue
+        n += 1
+        run.obligation(rid, f.short, norm(tested) == norm(used), key="default-tests-what-it-replaces:" + norm(st.body[0].targets[0]),
+                       message="%s chooses %s by testing %s and then uses %s: a negative ('not given') %s reaches the line shape when "
+                               "%s was given, and a given value is ignored when it was not"
+                               % (f.short, norm(st.body[0].targets[0]), norm(tested), norm(used), norm(used), norm(tested)),
+                       loc=f.loc(st), sample={"tested": norm(tested), "used": norm(used)})
+    if n < 4:
+        raise AnalysisError("_calculate_pathway: only %d default selections found (4 confirmed)" % n)
 
 
 def index_roles(nest):
